@@ -237,5 +237,5 @@ def tasks(tier):
     # the prologue of the isolated backtest (shared with C11): before the simulation starts the store receives the warm-up argument
     # only, and the simulator receives the whole input - no row of the candles to be simulated is stored ahead of its minute
     import props.C11 as P11
-    ts += [t for t in P11.tasks(tier) if t.id.startswith('prologue.')]
+    ts += [t for t in P11.tasks(tier) if t.id.startswith('prologue.') or t.id == 'state-classes']
     return ts
